@@ -1531,7 +1531,7 @@ class Evaluator:
             # a crop of sample data done on the array instead of on the signal (data[a:b] handed to like()): the bounds are
             # subject to the same sign rule as signal-level slice bounds
             first = idx.items[0] if isinstance(idx, TupleV) and idx.items else idx
-            if obj.tag == "data" and obj.shape and isinstance(first, SliceV) and fr is not None and fr.fi is not None \
+            if obj.shape and obj.kind != "time" and isinstance(first, SliceV) and fr is not None and fr.fi is not None and fr.fi.cls is None \
                     and any(isinstance(b_, Num) and not b_.expr.is_number for b_ in (first.start, first.stop)):
                 self.signal_slices.append((fr.fi, node, idx, list(fr.facts)))
             return self.ext.num_getitem(self, obj, idx, fr, node)
